@@ -80,7 +80,7 @@ class Spec(DiffSpec):
             yield {"seed": s, "schedule_dir": d, "n_ops": 26 if "uc7" in d else 60, "monitors": ["c20"], "op_mix": {"step": 0.55, "reset": 0.42, "fault": 0.03}, "record_state": True}
         for i in range(n):
             s = base_seed * 1000003 + 200000000 + i
-            prof = {"n_green": (0, 2), "n_red": (0, 2), "tight_links": 0.1, "avoid": ["listen_on_ports"], "initial_power_off": 0.15, "extra_nic": 0.3, "power_defaults": True, "use_defaults_block": 0.7, "implicit_bandwidth": 0.4, "node_dns": 0.5}
+            prof = {"n_green": (0, 2), "n_red": (0, 2), "tight_links": 0.1, "initial_power_off": 0.15, "extra_nic": 0.3, "power_defaults": True, "use_defaults_block": 0.7, "implicit_bandwidth": 0.4, "node_dns": 0.5}
             yield {"seed": s, "profile": prof, "n_ops": 22, "monitors": ["c20"], "first_reset_seed": s % 1000, "op_mix": {"step": 0.85, "reset": 0.06, "fault": 0.09}, "record_state": True}
 
 
